@@ -39,6 +39,20 @@ CHECKS = {
         'validated by the injection runs; the numerical state after a cpl restore is not modelled; backtracking into the domain is '
         'observed on domain-restricted F, not proved.',
    technique='Lean 4 proof (decide over a source-generated site table + induction over failure sequences) with fault-injection correspondence'),
+ 'C04': dict(
+   category='proof',
+   text='(T) The stopping test, the two result dictionaries and the symmetrisation walk of cpl are regenerated from cvxprog.py into Lean on every '
+        'run; theorems for all values of the statistics and tolerances: optimal is returned only when both residuals are within feastol and '
+        'the absolute or defined relative gap is within tolerance and the iteration limit is not reached; result keys come from the right '
+        'slices; all s blocks of sl, zl are symmetrised with the correct offsets. (V) A Lean rational checker of the documented KKT conditions '
+        'for convex quadratic F (f and Df re-evaluated exactly, normalisers recomputed from the documented starting point) judges what cpl and cp '
+        'really return on planted QCQPs; its acceptance is proved to be exactly the documented list of conditions. Theorems for every convex F: the '
+        'gap bounds the suboptimality at a Lagrangian minimiser; the x-part of an epigraph optimum minimises the original objective (cp). cp on '
+        'a quadratic objective is compared with coneqp, gp with cp on the same log-sum-exp data, and restricted-domain F (None and (None, None) refusals) must end in dom F.',
+   design_ref='DESIGN.md 5 C04',
+   note='Trusted: Lean kernel, translator py2lean.gen_decide_nl, checker Model/CertCheckNL.lean (quadratic F only), float oracles for the log-barrier '
+        'and log-sum-exp families, tolerance allowance (cp/gp: 10*feastol). The statistics block of cpl is tied by recomputation of every reported field, not translated.',
+   technique='Lean 4 proof over a source-generated stopping test + proved-spec rational KKT checker applied to real solver outputs'),
  'C05': dict(
    category='proof',
    text='Lean 4 theorems, over any ordered field, vector spaces and cone pair with <s,z> >= 0 (every cone structure and size), that fix the '
